@@ -737,3 +737,112 @@ Proof.
     - rewrite IH. reflexivity. }
   apply jeq_obj; intros k' x Hx; exists x; (split; [|constructor]); [rewrite <- H|rewrite H]; exact Hx.
 Qed.
+
+(* ====================================================================== *)
+(* the decoder is total: an error, never the model's Panic                *)
+(* ====================================================================== *)
+Lemma np_bind {A B} (r : res A) (f : A -> res B) :
+  is_panic r = false -> (forall a, is_panic (f a) = false) -> is_panic (bind r f) = false.
+Proof. destruct r; cbn; auto. Qed.
+Lemma np_opt_field {A} (dec : json -> res A) (d : A) o : (forall j, is_panic (dec j) = false) -> is_panic (opt_field dec d o) = false.
+Proof. intros H. destruct o; cbn; auto. Qed.
+Lemma np_mapM {A B} (f : A -> res B) l : (forall a, is_panic (f a) = false) -> is_panic (mapM f l) = false.
+Proof. intros H. induction l as [|x t IH]; cbn [mapM]; [reflexivity|]. apply np_bind; [apply H|]. intros y. apply np_bind; [exact IH|]. reflexivity. Qed.
+Lemma np_no_unknown tbl f : is_panic (no_unknown tbl f) = false.
+Proof. unfold no_unknown. destruct (all_known tbl f); reflexivity. Qed.
+
+Ltac np :=
+  repeat first
+    [ reflexivity
+    | apply np_no_unknown
+    | apply np_bind; [|intros ?]
+    | apply np_opt_field; intros ?
+    | apply np_mapM; intros ?
+    | match goal with
+      | |- is_panic (match ?x with _ => _ end) = false => destruct x
+      | |- is_panic (if ?b then _ else _) = false => destruct b
+      | |- is_panic (let (_, _) := ?x in _) = false => destruct x
+      end ].
+
+Lemma np_u32 j : is_panic (dec_u32 j) = false.
+Proof. unfold dec_u32, u32_of_lit. np. Qed.
+Lemma np_enum n j : is_panic (dec_enum n j) = false.
+Proof. unfold dec_enum, i32_of_lit. np. Qed.
+Lemma np_str j : is_panic (dec_str j) = false.
+Proof. unfold dec_str. np. Qed.
+Lemma np_byte_elem j : is_panic (dec_byte_elem j) = false.
+Proof. unfold dec_byte_elem. np. Qed.
+Lemma np_bytes j : is_panic (dec_bytes j) = false.
+Proof. unfold dec_bytes. destruct j; try reflexivity; [destruct (b64_decode dec); reflexivity|]. apply np_bind; [apply np_mapM; apply np_byte_elem|reflexivity]. Qed.
+Lemma np_int e j : is_panic (dec_int e j) = false.
+Proof. unfold dec_int. np. Qed.
+Lemma np_coin e j : is_panic (dec_coin e j) = false.
+Proof.
+  unfold dec_coin. apply np_bind; [destruct j; reflexivity|]. intros f.
+  apply np_bind; [apply np_opt_field; apply np_str|]. intros d. apply np_bind; [apply np_opt_field; apply np_int|]. intros a.
+  apply np_bind; [apply np_no_unknown|reflexivity].
+Qed.
+Lemma np_cctp f : is_panic (dec_cctp f) = false.
+Proof.
+  unfold dec_cctp. apply np_bind; [apply np_opt_field; apply np_u32|]. intros ?. apply np_bind; [apply np_opt_field; apply np_bytes|]. intros ?.
+  apply np_bind; [apply np_opt_field; apply np_bytes|]. intros ?. apply np_bind; [apply np_no_unknown|reflexivity].
+Qed.
+Lemma np_hyp e f : is_panic (dec_hyp e f) = false.
+Proof.
+  unfold dec_hyp. apply np_bind; [apply np_opt_field; apply np_bytes|]. intros ?. apply np_bind; [apply np_opt_field; apply np_u32|]. intros ?.
+  apply np_bind; [apply np_opt_field; apply np_bytes|]. intros ?. apply np_bind; [apply np_opt_field; apply np_bytes|]. intros ?.
+  apply np_bind; [apply np_opt_field; apply np_str|]. intros ?. apply np_bind; [apply np_opt_field; apply np_int|]. intros ?.
+  apply np_bind; [apply np_opt_field; apply np_coin|]. intros ?. apply np_bind; [apply np_no_unknown|reflexivity].
+Qed.
+Lemma np_internal f : is_panic (dec_internal f) = false.
+Proof. unfold dec_internal. apply np_bind; [apply np_opt_field; apply np_str|]. intros ?. apply np_bind; [apply np_no_unknown|reflexivity]. Qed.
+Lemma np_bps j : is_panic (dec_bps j) = false.
+Proof. unfold dec_bps. destruct j; try reflexivity. apply np_bind; [apply np_opt_field; apply np_u32|]. intros ?. apply np_bind; [apply np_no_unknown|reflexivity]. Qed.
+Lemma np_amount j : is_panic (dec_amount j) = false.
+Proof. unfold dec_amount. destruct j; try reflexivity. apply np_bind; [apply np_opt_field; apply np_str|]. intros ?. apply np_bind; [apply np_no_unknown|reflexivity]. Qed.
+Lemma np_fee_info j : is_panic (dec_fee_info j) = false.
+Proof.
+  unfold dec_fee_info. destruct j; try reflexivity. apply np_bind; [apply np_opt_field; apply np_str|]. intros r.
+  apply np_bind; [destruct (jfield (fld jf_fee_info 1) f) as [[]|]; reflexivity|]. intros _.
+  destruct (present alt_bps f && present alt_amount f); [reflexivity|].
+  apply np_bind; [destruct (jfield alt_bps f); [apply np_bps|destruct (jfield alt_amount f); [apply np_amount|reflexivity]]|]. intros t.
+  apply np_bind; [apply np_no_unknown|reflexivity].
+Qed.
+Lemma np_fee_attrs f : is_panic (dec_fee_attrs f) = false.
+Proof.
+  unfold dec_fee_attrs. apply np_bind; [|intros ?; apply np_bind; [apply np_no_unknown|reflexivity]].
+  destruct (jfield (fld jf_fee_attrs 0) f) as [[]|]; try reflexivity. apply np_mapM. apply np_fee_info.
+Qed.
+Lemma np_any e i j : is_panic (dec_any e i j) = false.
+Proof.
+  unfold dec_any. destruct j; try reflexivity. destruct (obj_get "@type" f) as [[]|]; try reflexivity.
+  destruct i.
+  - destruct (String.eqb dec url_cctp); [apply np_bind; [apply np_cctp|reflexivity]|].
+    destruct (String.eqb dec url_hyp); [apply np_bind; [apply np_hyp|reflexivity]|].
+    destruct (String.eqb dec url_internal); [apply np_bind; [apply np_internal|reflexivity]|reflexivity].
+  - destruct (String.eqb dec url_fee); [apply np_bind; [apply np_fee_attrs|reflexivity]|reflexivity].
+Qed.
+Lemma np_action e j : is_panic (dec_action e j) = false.
+Proof.
+  unfold dec_action. destruct j; try reflexivity. apply np_bind; [apply np_opt_field; apply np_enum|]. intros ?.
+  apply np_bind; [apply np_opt_field; apply np_any|]. intros ?. apply np_bind; [apply np_no_unknown|reflexivity].
+Qed.
+Lemma np_forwarding e j : is_panic (dec_forwarding e j) = false.
+Proof.
+  unfold dec_forwarding. destruct j; try reflexivity. apply np_bind; [apply np_opt_field; apply np_enum|]. intros ?.
+  apply np_bind; [apply np_opt_field; apply np_any|]. intros ?. apply np_bind; [apply np_opt_field; apply np_bytes|]. intros ?.
+  apply np_bind; [apply np_no_unknown|reflexivity].
+Qed.
+Lemma np_payload e j : is_panic (dec_payload e j) = false.
+Proof.
+  unfold dec_payload. destruct j; try reflexivity.
+  apply np_bind; [destruct (jfield (fld jf_payload 0) f) as [[]|]; try reflexivity; apply np_mapM; apply np_action|]. intros ?.
+  apply np_bind; [apply np_opt_field; apply np_forwarding|]. intros ?. apply np_bind; [apply np_no_unknown|reflexivity].
+Qed.
+
+Theorem decode_never_panics e t : is_panic (decode_memo e t) = false.
+Proof.
+  unfold decode_memo. destruct t; try reflexivity. destruct (negb (Nat.eqb (length (distinct_keys f)) 1)); [reflexivity|].
+  destruct (obj_get orbiter_prefix f) as [v|]; [|reflexivity].
+  pose proof (np_payload e v) as H. destruct v; try reflexivity; exact H.
+Qed.
